@@ -106,6 +106,8 @@ def write_replay(prop, group, ob, reproduced, extra):
 def run_property(prop, tier, seed):
     t0 = time.time()
     mod = importlib.import_module("props." + prop)
+    from contracts import common as _common
+    _common.warm_shape_cache()
     known = load_known()
     groups = [g for g in mod.groups(tier)]
     bounded = mod.bounded(tier, seed) if hasattr(mod, "bounded") else []
